@@ -309,6 +309,14 @@ def r10_10(ctx):
         ctx.ok(construct, f.loc(calls[0]))
 
 
+def r10_11(ctx):
+    """R10.11 the loader stores what the writer wrote: between the line regex and the store, the value text is rewritten only in the ways the
+    writer undoes (C16 R16.11) - cutting at ` #` also cuts inside a quoted string, and the minimal file's assignment is lost."""
+    from . import c16
+    from .common import delegate
+    delegate(ctx, c16.r16_11, lambda c: True)
+
+
 def rules():
-    return [("R10.10", r10_10, 1), ("R10.9", r10_9, 2), ("R10.8", r10_8, 1), ("R10.7", r10_7, 1), ("R10.6", r10_6, 3), ("R10.1", r10_1, 4), ("R10.1b", r10_1b, 3), ("R10.2", r10_2, 4), ("R10.2b", r10_2b, 2), ("R10.3", r10_3, 2),
+    return [("R10.11", r10_11, 5), ("R10.10", r10_10, 1), ("R10.9", r10_9, 2), ("R10.8", r10_8, 1), ("R10.7", r10_7, 1), ("R10.6", r10_6, 3), ("R10.1", r10_1, 4), ("R10.1b", r10_1b, 3), ("R10.2", r10_2, 4), ("R10.2b", r10_2b, 2), ("R10.3", r10_3, 2),
             ("R10.4", r10_4, 1), ("R10.5", r10_5, 5)]
